@@ -16,8 +16,8 @@ Definition fcode (f : option finding) : Z :=
   | Some F_fetch_star_first => 4 | Some F_fetch_reversed => 5 | Some F_fetch_beyond => 6
   | Some F_search_star => 8 | Some F_search_comma => 9
   | Some F_search_star_first => 10 | Some F_search_reversed => 11 | Some F_search_beyond => 12
-  | Some F_search_huge => 13 | Some F_uidsearch_shape => 14 | Some F_deleted_substring => 15
-  | Some F_junk_move_shift => 16 | Some F_noop_notices => 17
+  | Some F_search_huge => 13 | Some F_uidsearch_shape => 14 | Some F_deleted_case => 18
+  | Some F_noop_notices => 17
   end.
 
 Definition b2z (b : bool) : Z := if b then 1 else 0.
@@ -107,13 +107,13 @@ Definition case_noop (old new notices : list Z) : Z :=
        (zlist_eqb (replay notices old) new) true (classify_noop old new).
 Definition case_junk (s : str) (pre : list (Z * str)) (notices post : list Z) (ast : option seqset) : Z :=
   let mb := mk_mbox pre in
-  let '(ns, ids, mb') := store_junk_loop (parse_seqset_db s (Z.of_nat (length mb))) mb in
+  let '(ns, ids, mb') := handle_store_junk s mb in
   pack (zlist_eqb ns notices && zlist_eqb (map m_uid mb') post)
        (zlist_eqb (replay notices (map m_uid mb)) post
         && with_ast ast true (fun a =>
              zset_eqb (filter (fun u => negb (existsb (Z.eqb u) post)) (map m_uid mb))
                       (map (fun i => nth1 (map m_uid mb) i 0) (addressed a (Z.of_nat (length mb))))))
-       (ast_print_ok ast s) (with_ast ast None (fun a => classify_junk_store a (Z.of_nat (length mb)))).
+       (ast_print_ok ast s) None.
 (** listings: labels of UID FETCH 1:*, EXISTS, STATUS MESSAGES, SEARCH ALL, FETCH 1:* (label,uid) *)
 Definition case_views (uidfetch : list (Z * Z)) (exists_ status : Z) (searchall : list Z) (fetchall : list (Z * Z)) : Z :=
   let uids := map snd uidfetch in
